@@ -26,6 +26,8 @@ def specs_projection(tier, implicit_only=False):
             cfg += [(4, True, False), (4, False, True)]
     s = [(FM, "unit_operator_op_eval", {"nblocks": nb, "hermitian": h, "implicit": im, "timeout_ms": t}) for nb, h, im in cfg]
     s.append((FM, "unit_operator_op_eval", {"nblocks": 2, "hermitian": True, "implicit": False, "timeout_ms": t, "canary": True}))
+    # the callee of every projection: which blocks become the zero sentinel (tolerance = the caller's atol, nothing else)
+    s += [("contracts.bd_guards", "unit_convert_if_zero", {"kind": k, "timeout_ms": t}) for k in ("dense", "sparse", "sympy", "scalar")]
     return s
 
 
